@@ -476,7 +476,31 @@ class ExprMixin:
             return self.call_spec_or_uf('int_to_str', [v], st)
         raise Unsupported('str() of %s' % v.t)
 
+    def type_test(self, n, st):
+        """type(X) == T / type(X) is T / != / is not, for builtin T: exact-type test."""
+        if len(n.ops) != 1 or not isinstance(n.ops[0], (ast.Eq, ast.Is, ast.NotEq, ast.IsNot)):
+            return None
+        a, b = n.left, n.comparators[0]
+        if not (isinstance(a, ast.Call) and isinstance(a.func, ast.Name) and a.func.id == 'type' and len(a.args) == 1
+                and isinstance(b, ast.Name) and b.id in ('str', 'int', 'bool', 'float', 'list', 'dict', 'tuple')):
+            return None
+        v = self.ev(a.args[0], st)
+        prim = {'str': T._Str, 'int': T._Int, 'bool': T._Bool, 'float': T._Real, 'list': T.List, 'dict': T.Dict, 'tuple': T.Tuple}[b.id]
+        t = v.t
+        if isinstance(t, T.Opt) and not t.reflike:
+            r = z3.And(z3.Not(t.is_none(v.z)), z3.BoolVal(isinstance(t.t, prim)))
+        else:
+            r = z3.BoolVal(isinstance(t, prim) and not (isinstance(t, T.List) and False))
+            if isinstance(t, (T.List, T.Dict)) and t.nullable:
+                r = z3.And(v.z != 0, r)
+        if isinstance(n.ops[0], (ast.NotEq, ast.IsNot)):
+            r = z3.Not(r)
+        return SV(T.Bool, r)
+
     def ev_Compare(self, n, st):
+        tt = self.type_test(n, st)
+        if tt is not None:
+            return tt
         left = self.ev(n.left, st)
         conds = []
         for op, rn in zip(n.ops, n.comparators):
